@@ -307,6 +307,7 @@ def run(ctx, prog, res):
     rule_r13(prog, res)
     rule_r14(ctx, prog, res)
     rule_r15(ctx, prog, res)
+    rule_r16(prog, res)
 
 
 def _or_roots(f, op, names, depth=0):
@@ -703,3 +704,65 @@ def rule_r15(ctx, prog, res):
         return
     r15.check(bad is None, {"fn": "easter", "years": len(years)}, "C01.R15:easter", "" if bad is None else "easter(%d) = %r, Easter Sunday is %04d-%02d-%02d" % (bad[0], bad[1], *bad[2]), lib.where_of(fs[0]))
     r15.floor(1)
+
+
+def rule_r16(prog, res):
+    r16 = res.rule("C01.R16", "how the rules of a day combine, as a decision table over (operator, kind) read off the branch conditions of the fold in schedule_at: a normal rule that opens or is unknown replaces what earlier rules gave on the days it applies; additional rules and normal closed rules overlay; fallback rules only fall back - the table of the property statement")
+    import pathterms
+    import terms
+    sa = prog.require_fn("opening_hours::opening_hours::OpeningHours::<L>::schedule_at")
+    OPS = prog.adts["opening_hours_syntax::rules::RuleOperator"]
+    KINDS = prog.adts["opening_hours_syntax::rules::RuleKind"]
+    opn = dict(zip(OPS["discrs"] or range(3), [v["name"] for v in OPS["variants"]]))
+    kdn = dict(zip(KINDS["discrs"] or range(3), [v["name"] for v in KINDS["variants"]]))
+
+    def tys_of(st):
+        return [sa.locals[lib.operand_place(o)["l"]]["ty"] if lib.operand_place(o) is not None and not lib.operand_place(o)["p"] else o.get("ty") for o in st["rv"]["ops"]]
+    M = None
+    results = []
+    for bb, b in sa.live_blocks():
+        for st in b["stmts"]:
+            if st["k"] == "assign" and st["rv"]["k"] == "agg" and st["rv"].get("ak") == "tuple" and len(st["rv"]["ops"]) == 2:
+                t = tys_of(st)
+                if "RuleOperator" in str(t[0]) and "RuleKind" in str(t[1]):
+                    M = bb
+                elif t[0] == "bool" and "Schedule" in str(t[1]):
+                    results.append((bb, st))
+    if M is None or len(results) < 3:
+        r16.anchor_missing("the match on (operator, kind) and its result tuples in schedule_at")
+        return
+    table = {}
+    for bb, st in results:
+        ev_sh = flow.shape(sa, st["rv"]["ops"][1], depth=3)
+        try:
+            t = terms.parse(ev_sh)
+        except terms.TermError:
+            t = None
+        alts = list(t[2]) if t is not None and t[0] == "app" and t[1] == "alt" else [t]
+        bare_curr = any(a is not None and a[0] == "app" and a[1].endswith("rule_sequence_schedule_at") for a in alts)
+        for path in pathterms.acyclic_paths(sa, bb, start=M):
+            ops_ok, kinds_ok = set(opn), set(kdn)
+            for _, op, taken, excl in pathterms.conditions(sa, path):
+                sh = flow.shape(sa, op, depth=3)
+                if re.fullmatch(r"discr\(.*\.operator\)", sh):
+                    ops_ok &= set(taken) if taken is not None else set(opn) - set(excl or [])
+                elif re.fullmatch(r"discr\(.*\.kind\)", sh):
+                    kinds_ok &= set(taken) if taken is not None else set(kdn) - set(excl or [])
+            for o in ops_ok:
+                for k in kinds_ok:
+                    if opn[o] == "Fallback":
+                        mode = "fallback"
+                    elif bare_curr:
+                        mode = "replace"
+                    elif "Schedule::addition" in ev_sh:
+                        mode = "overlay"
+                    else:
+                        mode = "? " + ev_sh[:60]
+                    table.setdefault((opn[o], kdn[k]), set()).add(mode)
+    WANT = {("Normal", "Open"): "replace", ("Normal", "Unknown"): "replace", ("Normal", "Closed"): "overlay",
+            ("Additional", "Open"): "overlay", ("Additional", "Unknown"): "overlay", ("Additional", "Closed"): "overlay",
+            ("Fallback", "Open"): "fallback", ("Fallback", "Unknown"): "fallback", ("Fallback", "Closed"): "fallback"}
+    for combo, want in sorted(WANT.items()):
+        got = sorted(table.get(combo, []))
+        r16.check(got == [want], {"operator": combo[0], "kind": combo[1], "combination": got}, "C01.R16:%s/%s" % combo,
+                  "a %s rule of kind %s is combined with what earlier rules gave by %s; the documented semantics say `%s` (a later normal rule replaces earlier rules on the days it applies, additional rules and closed rules overlay, fallback rules only apply on days nothing else covered)" % (combo[0].lower(), combo[1].lower(), got or "nothing", want), lib.where_of(sa))
